@@ -6,7 +6,7 @@ from . import maplib as M
 PROPERTY = "C06"
 DRIVER = "TraitsVerif/Driver/Map.lean"
 PROPS_MODULES = ["TraitsVerif.Props.C06"]
-TRANSLATORS = ["mutators"]
+TRANSLATORS = ["mutators", "dictevent"]
 RULE = ("exhaustive single operations (every mutator x key/value arguments from {1,'1',2,'2'} x pair lists of "
         "length 0..2 (thorough: 0..3) as list / mapping x 4 (thorough: 24) validator pairs) on every ordered dict "
         "with <= 2 (thorough: <= 3) keys from {1,'1',2}; the same stream against the builtin dict (validates the "
@@ -52,7 +52,7 @@ def generate(rng, tier):
     if tier == "quick":
         nh, nm = 5000, 500
     elif tier == "thorough":
-        nh, nm = 60000, 5000
+        nh, nm = 100000, 10000
     else:  # intense
         nh, nm = 20000, 2000
     yield from M.exhaustive_single_ops("quick" if tier == "quick" else "thorough", "td")
